@@ -367,6 +367,55 @@ Ltac sol_fact H ::=
         | apply router_hop_pres in H | apply router_exec_ops_pres in H | apply router_assert_min_pres in H
         | apply cw20_send_pres in H ].
 
+(* BurnFrom lowers the owner's balance and the supply by n; DecreaseAllowance moves no balance *)
+Lemma tok_burn_from_pres w ta sp ow n w' : with_token w ta (fun t => tok_burn_from t sp ow n) = Ok w' -> pres w w'.
+Proof.
+  intros H. apply (with_token_step w ta _ w' [ow] H).
+  intros t t' Hf. cbv beta in Hf. apply tok_burn_from_effect in Hf.
+  destruct Hf as (al & _ & _ & Hb1 & Hs1 & Hs & _ & _ & _ & Hb).
+  split; [intros Hlt; rewrite Hs; clear - Hlt; lia|].
+  intros l Hl Hk.
+  assert (S1 : sumf (t_bal t') l + n = sumf (t_bal t) l).
+  { apply (sumf_dec (t_bal t) _ l ow n Hl (Hk _ (or_introl eq_refl)) Hb1). intros a _. apply Hb. }
+  rewrite Hs. clear - S1 Hs1. lia.
+Qed.
+
+Lemma tok_decrease_allowance_pres w ta ow sp n w' :
+  with_token w ta (fun t => tok_decrease_allowance t ow sp n) = Ok w' -> pres w w'.
+Proof.
+  intros H. apply (with_token_step w ta _ w' [] H).
+  intros t t' Hf. cbv beta in Hf. apply tok_decrease_allowance_effect in Hf.
+  destruct Hf as (_ & al & _ & Hb & Hs & _). rewrite Hb, Hs.
+  split; [intros Hlt; exact Hlt|]. intros l _ _. apply N.le_refl.
+Qed.
+
+Ltac sol_fact H ::=
+  first [ apply bank_send_pres in H | apply move_funds_pres in H
+        | apply tok_transfer_pres in H | apply tok_transfer_from_pres in H
+        | apply tok_increase_allowance_pres in H | apply tok_mint_pres in H | apply tok_burn_pres in H
+        | apply tok_burn_from_pres in H | apply tok_decrease_allowance_pres in H
+        | apply pay_asset_pres in H
+        | apply pair_swap_pres in H | apply pair_withdraw_pres in H | apply pair_provide_pres in H
+        | apply pair_update_decimals_pres in H | apply pair_receive_pres in H
+        | apply fac_add_native_pres in H | apply fac_update_config_pres in H | apply fac_migrate_pair_pres in H
+        | apply router_hop_pres in H | apply router_exec_ops_pres in H | apply router_assert_min_pres in H
+        | apply cw20_send_pres in H ].
+
+Lemma cw20_send_from_pres w ta sp ow target n h w' : cw20_send_from w ta sp ow target n h = Ok w' -> pres w w'.
+Proof. intros H. unfold cw20_send_from in H. cbv beta zeta in H. sol_solve. Qed.
+
+Ltac sol_fact H ::=
+  first [ apply bank_send_pres in H | apply move_funds_pres in H
+        | apply tok_transfer_pres in H | apply tok_transfer_from_pres in H
+        | apply tok_increase_allowance_pres in H | apply tok_mint_pres in H | apply tok_burn_pres in H
+        | apply tok_burn_from_pres in H | apply tok_decrease_allowance_pres in H
+        | apply pay_asset_pres in H
+        | apply pair_swap_pres in H | apply pair_withdraw_pres in H | apply pair_provide_pres in H
+        | apply pair_update_decimals_pres in H | apply pair_receive_pres in H
+        | apply fac_add_native_pres in H | apply fac_update_config_pres in H | apply fac_migrate_pair_pres in H
+        | apply router_hop_pres in H | apply router_exec_ops_pres in H | apply router_assert_min_pres in H
+        | apply cw20_send_pres in H | apply cw20_send_from_pres in H ].
+
 (* pair creation installs an LP token with supply 0 and all balances 0 *)
 Lemma set_token_zero_pres w lp lt : (forall a, t_bal lt a = 0) -> t_supply lt = 0 -> pres w (set_token w lp lt).
 Proof.
